@@ -18,6 +18,20 @@ def add(prop, rule, key, reason, anchors):
     TABLE[(prop, rule, key)] = (reason, anchors)
 
 
+def _negated_test_present(f, text):
+    """The anchor is the text of a test: it also holds when the function tests the exact negation (branches swapped)."""
+    from .canon import _negate
+    try:
+        want = ast.parse(text, mode='eval').body
+    except SyntaxError:
+        return False
+    neg = norm(_negate(want))
+    for s in walk_no_nested(f.node):
+        if isinstance(s, (ast.If, ast.While, ast.IfExp)) and norm(s.test) == neg:
+            return True
+    return False
+
+
 def lookup(prog, prop, rule, key):
     ent = TABLE.get((prop, rule, key))
     if ent is None:
@@ -32,7 +46,8 @@ def lookup(prog, prop, rule, key):
                 return None
         elif isinstance(pattern, str) and pattern.startswith('text:'):
             if pattern[5:] not in norm(f.node).replace('\n', ' ') and \
-                    not any(pattern[5:] in norm(s) for s in walk_no_nested(f.node) if isinstance(s, (ast.stmt, ast.expr))):
+                    not any(pattern[5:] in norm(s) for s in walk_no_nested(f.node) if isinstance(s, (ast.stmt, ast.expr))) and \
+                    not _negated_test_present(f, pattern[5:]):
                 return None
         else:
             if not find(f.node, pattern):
